@@ -170,5 +170,17 @@ def add_schema_invariants(draw: Any, spec: Spec, opts: Opts, used: set) -> None:
                     tags = {"form": "set", "set": s.name, "recognised": True}
                 tags["prop"] = p.name
                 tags["cls"] = c.name
-                body = g.guard(body, p, tags)
+                others = [q for q in props if q.type.optional and q.name != p.name]
+                if not p.type.optional and others and tags.get("recognised") and g.chance(opts.guard_other):
+                    # conditional on a DIFFERENT optional property: not a constraint on p in general
+                    q = g.pick(others)
+                    tags["recognised"] = False
+                    tags["form"] = "near-miss:guard-on-other-property"
+                    tags["guard"] = "other"
+                    if draw(st.booleans()):
+                        body = f"not (self.{q.name} is not None) or ({body})"
+                    else:
+                        body = f"(self.{q.name} is None) or ({body})"
+                else:
+                    body = g.guard(body, p, tags)
                 c.invs.append(Inv(body, g.desc(), tags))
